@@ -127,6 +127,26 @@ class _Rewriter(ast.NodeTransformer):
                 call = ast.Call(f, [ast.Constant(False)], [])
                 return ast.While(ast.UnaryOp(ast.Not(), call),
                                  [ast.Expr(ast.Yield(ast.Name("_SEQZ_B", ast.Load())))], [])
+        if isinstance(st, ast.Expr) and isinstance(st.value, ast.Call) and (st.value.args or st.value.keywords):
+            f = st.value.func
+            nm = f.id if isinstance(f, ast.Name) else (f.attr if isinstance(f, ast.Attribute) else "")
+            if nm == "acquire":
+                # acquire(blocking[, timeout]) as a statement (result ignored).  Real time is arbitrary for a logical
+                # thread: a positive timeout may expire during any wait (the owner can stay descheduled for longer), so a
+                # timed acquire on a held mutex is a try-acquire that fails and the waiter goes on WITHOUT the mutex.
+                args = list(st.value.args)
+                kws = {k.arg: k.value for k in st.value.keywords}
+                blocking = args[0] if args else kws.get("blocking", ast.Constant(True))
+                timeout = args[1] if len(args) > 1 else kws.get("timeout", ast.Constant(-1))
+                if not (isinstance(blocking, ast.Constant) and isinstance(timeout, ast.Constant)):
+                    raise SeqError("acquire() with non-constant arguments: %s" % ast.unparse(st))
+                try_once = ast.Call(f, [ast.Constant(False)], [])
+                if not blocking.value:
+                    return ast.Expr(try_once)
+                if timeout.value is None or timeout.value < 0:
+                    return ast.While(ast.UnaryOp(ast.Not(), try_once), [ast.Expr(ast.Yield(ast.Name("_SEQZ_B", ast.Load())))], [])
+                # the owner may stay descheduled for longer than any timeout: a timed acquire on a held mutex can fail
+                return ast.Expr(try_once)
         if isinstance(st, ast.With) and len(st.items) == 1 and st.items[0].optional_vars is None \
                 and _is_lock_expr(st.items[0].context_expr):
             self.tmp += 1
